@@ -68,7 +68,9 @@ void h_bq_walk(void) {
    * link of a request ahead of the cursor, however it is made (also through a reference), breaks the invariant */
   bq_trk->_next = BQ_NODE(bq_tpos + 1); bq_trk2->_next = BQ_NODE(bq_tpos + 2);
   if (bottom == 2) { stop->_next = 0; free(stop); }                      /* the stop node must not be touched */
+  AWT *inst_next0 = ((AWT *)AW_INSTANCE)->_next; void *inst_ha0 = (void *)((AWT *)AW_INSTANCE)->_handle_addr;      /* audit F2: the doorman is never written, by whatever route */
   mx_build_queue(bq_m, stoparg);
+  __CPROVER_assert(((AWT *)AW_INSTANCE)->_next == inst_next0 && (void *)((AWT *)AW_INSTANCE)->_handle_addr == inst_ha0, "C08: the doorman (awaiter::instance) is never written by the walk (also not through a reference)");
   __CPROVER_assert(cv_exc_pending == 0 && *M_CELL(bq_m) == (void *)AW_INSTANCE, "request cell holds the doorman after the detach");
   __CPROVER_assert(bqm.pos == bq_n, "C08: the whole detached chain is moved to the private queue, one request per step (none lost, none added)");
   __CPROVER_assert(bq_n == 0 ==> bq_m->_queue == 0, "empty chain: private queue stays empty");
